@@ -462,6 +462,9 @@ package bgp
 //@   loop 0 invariant strongestError == nil || isMsgErr(strongestError)
 //@   ensures result0 <==> result1 == nil
 //@   ensures result1 != nil ==> isMsgErr(result1)
+// from C06 (RFC 7606 7.3: NEXT_HOP is malformed unless it holds an IPv4 address): a received NEXT_HOP attribute with
+// an IPv6 address (16 octets on the wire) does not validate
+//@   ensures typeOf(a) == (*PathAttributeNextHop) && a.(*PathAttributeNextHop) != nil && a.(*PathAttributeNextHop).Value.Is6() ==> result1 != nil
 //@ func ValidateUpdateMsg
 //@   requires m != nil
 //@   claims at-return at-call inv-init inv-keep
